@@ -4,7 +4,7 @@ B1  MC_RequestResolution: every request over a small vocabulary against a two-tr
     RequestResolution.tla as invariants, witnesses for every rule / lemma antecedent / recorded surprise as ASSUMEs.
 B2  TLC emits the library once (Header) and one `[c |-> case, e |-> expected outcome]` per case.  Each case is turned
     into a real equipment dict (an equipment JSON document derived from example-data/eqpt_config.json whose Transceiver
-    list and SI entry come from the emitted library, loaded by gnpy.tools.json_io.load_equipment) and a real service
+    list and SI entry come from the emitted library, loaded by gnpy.tools.json_io._equipment_from_json) and a real service
     document, resolved by the real gnpy.tools.json_io.requests_from_json, projected into the specification's integer
     record and compared with TLC's expectation field by field.  Python only encodes and projects.
 
@@ -59,14 +59,18 @@ def equipment_document(lib, si):
 
 
 def load_library(lib, si):
-    """write the document under build/ and load it with the real loader"""
-    from gnpy.tools.json_io import load_equipment
+    """write the document under build/, read it back and build the equipment dict with the real loader.  The in-memory
+    entry (_equipment_from_json, what load_eqpt_topo_from_json calls) is used rather than load_equipment: the YANG
+    validation load_equipment applies to FILES refuses a mode whose baud rate exceeds its min_spacing, which would leave
+    the library sanity rule of trx_mode_params out of reach."""
+    from gnpy.tools.json_io import load_json, _equipment_from_json
+    from gnpy.tools.default_edfa_config import DEFAULT_EXTRA_CONFIG
     tlc.BUILD.mkdir(exist_ok=True)
     fd, name = tempfile.mkstemp(prefix='rr-eqpt-', suffix='.json', dir=tlc.BUILD)
     try:
         with os.fdopen(fd, 'w') as fh:
             json.dump(equipment_document(lib, si), fh)
-        return load_equipment(Path(name))
+        return _equipment_from_json(load_json(Path(name)), DEFAULT_EXTRA_CONFIG)
     finally:
         os.unlink(name)
 
